@@ -1,3 +1,5 @@
+import AmrK.HeaderCodec
+import AmrK.CellHCodec
 import AmrK.ColumnAffine
 import AmrK.Chunks
 import AmrK.ChunksCover
@@ -65,5 +67,15 @@ theorem threshold : Generated.mandolineChunkBytes = 1000000 := Generated.chunk_t
 /-- the pinned arithmetic `chunk = n // nfiles` loses the 11th of 11 boxes over 4 files and divides
     by zero for fewer boxes than files (checked record of the repaired defect) -/
 example : Probe.chunkOK 11 4 = false ∧ Probe.chunkOK 3 4 = false := by decide
+
+/-- **the headers of the written plotfile are read back as what they were printed from**: the
+    global header as its content (fields, mesh, time) and each level header as its index ranges,
+    binary files and offsets - for every number of fields, levels and boxes (the renderers are
+    compared byte for byte with the `Header` / `Cell_H` files the tool writes on every run) -/
+theorem written_headers_read_back (H : Header.HData) (hg : H.Good) (nf : Nat) (rows : List Taste.BoxRow)
+    (hr : ∀ r ∈ rows, r.Good) :
+    Header.parse (Header.render H) none = .ok (H.meta H.levels.length) ∧
+      Taste.parseCellH (Taste.renderCellH nf rows) nf = .ok (rows.map Taste.BoxRow.entry) :=
+  ⟨Header.parse_render H hg, Taste.parseCellH_render nf rows hr⟩
 
 end C16
